@@ -111,7 +111,8 @@ OrderOK(rows, j, cs) == NoInventOK(rows, j, cs) /\ NoDropOK(rows, j, cs) /\ Freq
 
 (* Layout: which output columns belong to which input column.  A plain column owns exactly one output column,
    an amount-like column the longest run of Decimal columns named `name (CUR)` for a currency occurring in it.
-   (Input column names are distinct and contain no parenthesis -- an assumption of the harness generators.) *)
+   (Input column names are distinct, and no plain Decimal column is named like a new column of its left
+   neighbour -- assumptions of the harness generators.) *)
 GroupLen(cols, rows, j, ocols, o) ==
     LET A == CurAll(rows, j)
         names == {NewName(cols[j].name, c) : c \in A}
@@ -344,6 +345,17 @@ RVal(num) == IF num = <<>> THEN Zero ELSE num
 Total == pc = "done" => err = "none"
 \* the mechanism's result is an acceptable numberification
 Correct == Returned => Accepts(tbl.cols, tbl.rows, fmt, Q, OCols, orows)
+\* ... and by the generative form of the statement, used exactly as the replay driver uses what Gen_Numberify emits:
+\* the description is one of the acceptable ones and every cell is a member of its acceptable set
+CorrectGen ==
+    Returned =>
+        \E d \in AcceptDescs(tbl.cols, tbl.rows, NCols) :
+            /\ Len(d) = Len(OCols)
+            /\ \A k \in DOMAIN d : d[k][1] = OCols[k].name /\ d[k][2] = OCols[k].ty
+            /\ LET exp == ExpectCells(tbl.cols, tbl.rows, fmt, Q) IN
+               \A r \in DOMAIN tbl.rows : \A k \in DOMAIN d :
+                   IF d[k][4] = "" THEN orows[r][k].tok = tbl.rows[r][d[k][3]].tok
+                   ELSE \E pr \in exp[r][d[k][3]] : pr[1] = d[k][4] /\ orows[r][k].num \in pr[2]
 \* no currency occurring with a non-zero amount is dropped (and none gets two columns)
 NoCurrencyDropped ==
     Returned => \A j \in AmtCols : \A c \in CurNZ(tbl.rows, j) : Cardinality(ColsFor(j, c)) = 1
